@@ -4,6 +4,11 @@ import (
 	"math/rand"
 	"strconv"
 	"strings"
+	"time"
+
+	"gircverif/drive"
+
+	"github.com/lrstanley/girc"
 )
 
 // Hostile generator: every command the state handlers react to, with too few / too many
@@ -38,6 +43,8 @@ var cmdShapes = []struct {
 	{"353", []string{"me", "=", "#chan", "@alice +bob dave!d@h.example"}},
 	{"MODE", []string{"#chan", "+o-v", "alice", "bob"}},
 	{"324", []string{"me", "#chan", "+ntk", "key"}},
+	{"324", []string{"me", "#chan", "Caf\xc3\xa9", "x"}},
+	{"MODE", []string{"#chan", "+\xe9\x80-\x80\xff", "alice"}},
 	{"352", []string{"me", "#chan", "id", "host", "srv", "alice", "H", "0 Real Name"}},
 	{"354", []string{"me", "1", "#chan", "id", "host", "alice", "acct", "Real Name"}},
 	{"TOPIC", []string{"#chan", "new topic"}},
@@ -149,7 +156,7 @@ func hostileParam(r *rand.Rand) string {
 	case 3, 4, 5:
 		return caseVariant(r, hostChans[r.Intn(len(hostChans))])
 	case 6:
-		return Pick(r, "+o", "-o", "+v", "+ntk", "-k", "+l", "+b", "+ov-v", "+q", "-", "+", "+kl", "ntl")
+		return Pick(r, "+o", "-o", "+v", "+ntk", "-k", "+l", "+b", "+ov-v", "+q", "-", "+", "+kl", "ntl", "Caf\xc3\xa9", "+\xc3\xa9t") // valid UTF-8 only: PING and JOIN echo a parameter on the wire, where invalid bytes are dropped
 	case 7:
 		return Pick(r, "*", "1", "0", "key", "5", "H", "G*", "=", "@", "acct", "%tacuhnr,1")
 	case 8:
@@ -203,7 +210,7 @@ func hostileEvent(r *rand.Rand) Ev {
 			}
 			e.Params = append(e.Params, "are supported by this server")
 		case "MODE":
-			e.Params = []string{caseVariant(r, hostChans[r.Intn(5)]), Pick(r, "+o", "-o", "+ov", "+ntk", "-k", "+l", "+b", "-b+v", "+qaohv"), hostNicks[r.Intn(8)], hostNicks[r.Intn(8)]}
+			e.Params = []string{caseVariant(r, hostChans[r.Intn(5)]), Pick(r, "+o", "-o", "+ov", "+ntk", "-k", "+l", "+b", "-b+v", "+qaohv", "+n\xe9", "Caf\xc3\xa9", "+\xff\x80-\xff"), hostNicks[r.Intn(8)], hostNicks[r.Intn(8)]}
 		case "JOIN":
 			e.Params = []string{caseVariant(r, hostChans[r.Intn(6)])}
 		case "NICK":
@@ -248,6 +255,11 @@ func hostileEvent(r *rand.Rand) Ev {
 			}
 		}
 	}
+	if e.Cmd == "JOIN" && len(e.Params) > 0 && strings.HasPrefix(e.Params[0], ":") {
+		// the channel is echoed as a middle parameter of WHO/MODE, where a leading ':' cannot be
+		// told from the trailing marker when the written line is read back by the harness
+		e.Params[0] = "#" + e.Params[0][1:]
+	}
 	for i, p := range e.Params { // parameters a parser can produce: only the last may hold spaces or be empty
 		if i < len(e.Params)-1 && (p == "" || strings.ContainsAny(p, " ") || p[0] == ':') {
 			e.Params[i] = "x"
@@ -279,6 +291,9 @@ func historySig(evs []Ev, obs string) string {
 	return "cmds" + strconv.Itoa(len(seen)/4*4) + "/ch" + b(nch) + "/us" + b(nus)
 }
 
+// slowFailures counts wedge / no-answer verdicts of this process (each takes seconds to reach).
+var slowFailures int
+
 func init() {
 	Register(&Suite{
 		Name:  "state.hostile",
@@ -300,8 +315,16 @@ func init() {
 			if !ok {
 				return Result{Obs: "?bad-args", Sig: ""}
 			}
+			if slowFailures >= 8 {
+				// every such verdict costs seconds; a run that has seen eight of them has its answer
+				return Result{Obs: "?skipped-after-repeated-wedges", Sig: ""}
+			}
 			obs, oracle, ss := RunHistory(nick, user, evs)
-			ss.Stop()
+			if obs == "WEDGED" || obs == "NOPONG" {
+				slowFailures++ // the client is abandoned: stopping it could block on the leaked lock
+			} else {
+				ss.Stop()
+			}
 			return Result{Obs: obs, Oracle: oracle, Sig: historySig(evs, obs)}
 		},
 	})
@@ -328,6 +351,67 @@ func init() {
 		}
 		return Result{Obs: obs, Oracle: oracle, Sig: sig}
 	}
+	// Finding handler-injected-error-self-blocks (NOT in conf/C05.json until it is repaired or
+	// recorded): SASL configured, a user handler that takes 3 ms per PRIVMSG, and the whole
+	// history written in one burst, so that the receive queue (25) is full when the handler of
+	// the failing SASL reply queues its ERROR. The client must still disconnect promptly.
+	stallDirect := func(c Case) Result {
+		_, nick, user, evs, ok := DecodeHistory(c)
+		if !ok {
+			return Result{Obs: "?bad-args", Sig: ""}
+		}
+		cfg := drive.BaseConfig()
+		cfg.Nick, cfg.User = nick, user
+		cfg.SASL = &girc.SASLPlain{User: "acct", Pass: "secret"}
+		ss := drive.Start(cfg)
+		ss.C.Handlers.Add(girc.PRIVMSG, func(c *girc.Client, e girc.Event) { time.Sleep(3 * time.Millisecond) })
+		var sb strings.Builder
+		for _, e := range evs {
+			line, lok := e.Line()
+			if !lok {
+				return Result{Obs: "?unrenderable"}
+			}
+			sb.WriteString(line + "\r\n")
+		}
+		go ss.Peer.Write([]byte(sb.String()))
+		select {
+		case err := <-ss.Done:
+			ss.Done <- err
+			ss.Stop()
+			if err == nil {
+				return Result{Obs: "disconnected-nil", Oracle: "liveness: Connect returned without an error", Sig: "burst/nil"}
+			}
+			return Result{Obs: "disconnected", Sig: "burst/disconnected"}
+		case <-time.After(12 * time.Second):
+			return Result{Obs: "STALLED", Oracle: "stall: 12 s after a failed SASL exchange the client has neither disconnected nor moved on (the handler blocks on its own receive queue; the queued ERROR is dropped after 30 s)", Sig: "burst/stalled"}
+		}
+	}
+	Register(&Suite{
+		Name: "state.stall",
+		Prop: []string{"C05"},
+		Gen: func(r *rand.Rand) Case {
+			chat := func() Ev {
+				return Ev{HasSrc: true, Name: Pick(r, "alice", "bob", "zed"), Ident: "u", Host: "h", Cmd: "PRIVMSG", Params: []string{"#chan", "hello there"}}
+			}
+			evs := joinedPrefix()
+			for i := 2 + r.Intn(8); i > 0; i-- {
+				evs = append(evs, chat())
+			}
+			switch r.Intn(3) {
+			case 0:
+				evs = append(evs, Ev{HasSrc: true, Name: "srv", Cmd: Pick(r, "902", "904", "905", "906", "908"), Params: []string{"me", "SASL authentication failed"}})
+			case 1:
+				evs = append(evs, Ev{Cmd: "AUTHENTICATE", Params: []string{Pick(r, "PLAIN", "*", "x")}})
+			default:
+				evs = append(evs, Ev{HasSrc: true, Name: "srv", Cmd: "904", Params: []string{"me", "failed"}}, chat(), Ev{HasSrc: true, Name: "srv", Cmd: "906", Params: []string{"me", "aborted"}})
+			}
+			for i := 30 + r.Intn(30); i > 0; i-- {
+				evs = append(evs, chat())
+			}
+			return EncodeHistory("burst-sasl", "me", "user", evs)
+		},
+		Run: func(c Case) Result { return Isolated("state.stall", c, stallDirect) },
+	})
 	Register(&Suite{
 		Name: "state.liveness",
 		Prop: []string{"C05"},
@@ -379,6 +463,15 @@ func init() {
 			}
 			return EncodeHistory(route, "me", "user", evs)
 		},
-		Run: func(c Case) Result { return Isolated("state.liveness", c, liveDirect) },
+		Run: func(c Case) Result {
+			if slowFailures >= 8 {
+				return Result{Obs: "?skipped-after-repeated-wedges", Sig: ""}
+			}
+			res := Isolated("state.liveness", c, liveDirect)
+			if res.Obs == "WEDGED" || res.Obs == "NOPONG" {
+				slowFailures++
+			}
+			return res
+		},
 	})
 }
